@@ -83,6 +83,7 @@ func init() {
 			runParseCases(c, budget(c.Tier, 1500, 100000), p, func(cr *CaseResult) { oracleNoPanic(c, cr) })
 			checkC11Values(c, budget(c.Tier, 2500, 150000))
 			checkC11EnvList(c, budget(c.Tier, 800, 30000))
+			checkC11ChoicesChanged(c, budget(c.Tier, 300, 10000))
 		}}
 }
 
@@ -169,6 +170,13 @@ func init() {
 		p.CmdWord = 0.3
 		p.SubOpt = 0.5
 	}, oracleNoPanic, oracleHandler)
+	{
+		base := props["C07"]
+		props["C07"] = propRun{rule: base.rule + "; renamed stage: after a call (and a completion) the program assigns Group.Namespace, Option.LongName or Option.ShortName; the old spelling is unknown (error naming it / passed through / one handler call), the new one reaches the option", run: func(c *Ctx) {
+			base.run(c)
+			checkC07Renamed(c, budget(c.Tier, 300, 10000))
+		}}
+	}
 	parseProp("C08", caseRule+"emphasis: deep command trees, aliases, name clashes between levels", 2500, 100000, func(p *Profile) {
 		p.MaxCmdDepth = 3
 		p.MaxSubs = 4
@@ -313,9 +321,10 @@ func init() {
 
 func init() {
 	props["C16"] = propRun{
-		rule: "generated declarations in which every option description carries a unique marker and every masked default a unique secret; an active command chain is selected by parsing a command path; WriteHelp and WriteManPage are compared with the model byte for byte and scanned: visible options listed, markers of hidden items and secrets absent; distinct per case",
+		rule: "generated declarations in which every option description carries a unique marker and every masked default a unique secret; an active command chain is selected by parsing a command path; WriteHelp and WriteManPage are compared with the model byte for byte and scanned: visible options listed, markers of hidden items and secrets absent; mask stage: Option.DefaultMask assigned after the parser has been used (and a help text written): help and man page written afterwards show the current mask, or nothing for \"-\", never the real default; distinct per case",
 		run: func(c *Ctx) {
 			checkC16(c, budget(c.Tier, 500, 50000))
+			checkC16MaskChanged(c, budget(c.Tier, 150, 5000))
 		}}
 	props["C18"] = propRun{
 		rule: "generated declarations (Completer-typed options and positionals, hidden options, nested commands) and argument vectors made of a plausible prefix and a partial last word (long/short prefixes, --name=partial, -xpartial, command prefixes, bare dash); completion list compared with the model; sortedness and hidden-name oracles; acceptance oracle against the parser itself (its own parse of the typed words gives the command context; every offered option / command, appended to those words, must be taken by the parser as that option / command; long-option and command lists must be exactly the visible ones of that context which the parser accepts there; the probes are compared with the model too); positional stage: positional fields of a completing type, k typed values, terminator / PassAfterNonOption: the type's completions are offered exactly when a field still takes the word; value stage: an option of a completing type under ASCII and multi-byte short names, the last word spelling it with a partial value as --name=V, --name V, -xV, -x=V, -x V: exactly the type's completions of the partial value, re-attached to the spelling; distinct per case",
